@@ -108,7 +108,8 @@ func checkC02(c *core.Ctx) error {
 	}
 	c.Explanation = "Every operation method of every mutable scalar type is interpreted over symbolic terms (engine E3) on all its paths; the receiver's final value is compared with the definition " +
 		"of the operation it is named as (definition table in the checker, E2 normal-form equality; piecewise operations by guard-aware acceptance). Siblings (the same method on all 9 mutable / 16 scalar types) " +
-		"must have identical (guards => value) summaries. Conversions, registries, comparison operators and integer ring operations are decided structurally. Not decided: rounding, special values, approximant thresholds."
+		"must have identical (guards => value) summaries. Conversions, registries, comparison operators and integer ring operations are decided structurally. Not decided: rounding, special values, approximant thresholds." +
+		" (R8) Erfc, Log1p and LogErfc must obtain their value from the dedicated numerically stable primitive; Min/Max/Greater/Smaller must not delegate the order to an operand of another dynamic type."
 	c.Rule("C02.R1", "value of each operation method equals the function it is named as (primitives and composites/reductions), on every path", 300)
 	c.Rule("C02.R2", "sibling agreement: the (guards => value) summary of each operation is identical on all scalar types that implement it", 40)
 	c.Rule("C02.R4", "Convert*Scalar returns the receiver only for its own type and otherwise the object constructed for the requested type", 30)
